@@ -97,8 +97,19 @@ def _reduced_items(seed):
     return out
 
 
-LAYOUTS = ["same_block", "two_blocks", "comment_between", "second_under_h1", "deep"]
+LAYOUTS = ["same_block", "two_blocks", "comment_between", "second_under_h1", "deep", "bodyless_between"]
 LONG_LAYOUT = "long_page"
+
+
+class RawLine(M.AComment):
+    """A literal non-note line inside a block."""
+
+    def __init__(self, text):
+        super().__init__([])
+        self.text = text
+
+    def lines(self):
+        return [self.text]
 
 
 def _page_multi(seed, layout, specs):
@@ -129,6 +140,15 @@ def _page_multi(seed, layout, specs):
         for n, i in enumerate(items):
             if n:
                 blk.append(M.AComment([M.W("o"), M.W("P1"), M.W("240101#ZZ"), M.W("comment")]))
+            blk.append(i)
+        page.top_blocks = [blk]
+    elif layout == "bodyless_between":
+        # an item line without any body text ('o P1 ', 'x P9 ', '- ') is valid and is
+        # not a note; it must not influence the items around it
+        blk = []
+        for n, i in enumerate(items):
+            if n:
+                blk.append(RawLine(["o P1 ", "x P9 ", "- ", "< P0 ", "~ "][(n + len(items[0].words)) % 5]))
             blk.append(i)
         page.top_blocks = [blk]
     elif layout == "second_under_h1":
@@ -190,7 +210,10 @@ def _run_case(ctx, case) -> F.Outcome:
         problem = {"what": "valid-page-rejected", "nsyntax": got["nsyntax"], "has_errors": got["has_errors"]}
         sig = "valid-page-rejected"
     else:
-        d = M.diff_notes(want, got["notes"], FIELDS)
+        # an item without body text is not a note; should an implementation
+        # emit an empty-bodied note for it, that is not judged here
+        observed = [n for n in got["notes"] if n["body"].strip() != ""]
+        d = M.diff_notes(want, observed, FIELDS)
         if d:
             problem = d
             sig = "note-field:" + d["what"]
@@ -262,7 +285,7 @@ def run(ctx: F.Ctx):
             "that are prefixes by the format's own rule; multi-item pages: all ordered "
             "pairs (quick) / pairs and triples (thorough) of a 24-item reduced alphabet in 5 "
             "layouts (same block, two blocks, in-block comment between, second under a new H1, "
-            "under H1>H2>H3>H4), plus long pages (24, 48, 120 items over several blocks and sections, "
+            "under H1>H2>H3>H4, an item line without body text between the items), plus long pages (24, 48, 120 items over several blocks and sections, "
             "line numbers up to three digits). Section path and block index of every note are compared too. Each page is a trace of the line-event machine; model states = "
             "(section stack, previous item's prefix shape, event). Non-trivial = multi-item page "
             "or a body containing a prefix look-alike."
